@@ -1,13 +1,16 @@
 ----------------------------- MODULE WfSemantics -----------------------------
 (***************************************************************************)
-(* Schedule-free semantics of the workflow language (direct workflows),    *)
-(* written from the language description (doc/source/user/wf_lang_v2.rst), *)
-(* not from the engine: an abstract machine over task instances.           *)
+(* Schedule-free semantics of the workflow language, written from the      *)
+(* language description (doc/source/user/wf_lang_v2.rst), not from the     *)
+(* engine: an abstract machine over task instances.                        *)
+(* Direct workflows                                                        *)
 (*   - the tasks without inbound transitions start;                        *)
 (*   - a task that finishes SUCCESS / ERROR fires its on-success /         *)
 (*     on-error transitions, then its on-complete transitions, each only   *)
 (*     if its guard holds; a fired transition starts the target task,      *)
-(*     triggers the target join, or executes an engine command;            *)
+(*     triggers the target join, or executes an engine command; a task     *)
+(*     that was SKIPPED by the operator continues like a successful one    *)
+(*     (no on-skip clause in these programs);                              *)
 (*   - fail / succeed end the workflow at once: nothing is started         *)
 (*     afterwards (tasks already running still finish), transitions listed *)
 (*     after the command are dropped; noop does nothing;                   *)
@@ -17,6 +20,14 @@
 (*   - an ERROR is handled iff the failing task has a fired on-error       *)
 (*     transition; the workflow ends ERROR iff some task ended in an       *)
 (*     unhandled ERROR (or fail was executed), else SUCCESS.               *)
+(* Reverse workflows                                                       *)
+(*   - only the tasks the target task transitively requires ever run; a    *)
+(*     task starts when all the tasks it requires succeeded; the workflow  *)
+(*     ends ERROR iff some task failed (the tasks that do not depend on    *)
+(*     the failed one still run), else SUCCESS.                            *)
+(* Sub-workflows                                                           *)
+(*   - a task with `workflow:` starts an instance of that workflow when it *)
+(*     starts, and finishes SUCCESS / ERROR as that instance does.         *)
 (* There are no messages, jobs or transactions at this level; the only     *)
 (* nondeterminism is which running task finishes next.  Its terminal       *)
 (* states are the PRESCRIBED OUTCOMES of a program.                        *)
@@ -27,22 +38,33 @@
 (* state reports which of the observed outcomes it matches.  An observed   *)
 (* outcome matched by no terminal state is not prescribed by the language. *)
 (* The per-task outcome `eff` (SUCCESS / ERROR of the task's last attempt, *)
-(* all items taken together) is derived from the action-result oracle and  *)
-(* the attempts the executor actually ran, never from observed states.     *)
+(* all items taken together; SKIPPED when the operator skipped it) is      *)
+(* derived from the action-result oracle and the attempts the executor     *)
+(* actually ran, never from observed states.                               *)
 (***************************************************************************)
 EXTENDS Integers, FiniteSets, Sequences, TLC, Json, IOUtils
 
 Progs == ndJsonDeserialize(IOEnv.TRACE_FILE)
 
-VARIABLES pid, st, nx, wfs, created
-vars == <<pid, st, nx, wfs, created>>
+VARIABLES pid,
+          st,     \* [task name -> "none" | "WAITING" | "RUNNING" | "SUCCESS" | "ERROR" | "SKIPPED"]
+          nx,     \* [task name -> set of task names it routed to]
+          wfs     \* [workflow name -> "none" | "RUNNING" | "SUCCESS" | "ERROR"]
+vars == <<pid, st, nx, wfs>>
 
 D == Progs[pid].prog
 Rng(s)  == {s[i] : i \in DOMAIN s}
 Names   == Rng(D.order)
+Root    == D.name
+WfNames == {D.tasks[t].wf : t \in Names}
+TasksOf(w) == {t \in Names : D.tasks[t].wf = w}
+WfOf(t) == D.tasks[t].wf
 IsJoin(t) == D.tasks[t].join # 0
+IsSub(t)  == D.tasks[t].kind = "workflow"
 Inbound(t) == Rng(D.inbound[t])
 Final == {"SUCCESS", "ERROR"}
+Fin(s) == s \in {"SUCCESS", "ERROR", "SKIPPED"}
+Reverse == D.type = "reverse"
 
 Fired(edges) == SelectSeq(edges, LAMBDA e : e.fires)
 Clauses(t, s) == (IF s = "ERROR" THEN Fired(D.tasks[t].err) ELSE Fired(D.tasks[t].succ)) \o Fired(D.tasks[t].comp)
@@ -60,48 +82,82 @@ Reachable(t, depth) ==       \* may task t still run (it has not run yet)
   IF Inbound(t) = {} \/ depth > 8 THEN TRUE
   ELSE \E i \in Inbound(t) :
          IF st[i] = "none" THEN Reachable(i, depth + 1)
-         ELSE st[i] \notin Final \/ t \in nx[i]
-Routed(j)  == {i \in Inbound(j) : st[i] \in Final /\ j \in nx[i]}
-Dead(j)    == {i \in Inbound(j) : (st[i] \in Final /\ j \notin nx[i]) \/ (st[i] = "none" /\ ~Reachable(i, 1))}
+         ELSE ~Fin(st[i]) \/ t \in nx[i]
+Routed(j)  == {i \in Inbound(j) : Fin(st[i]) /\ j \in nx[i]}
+Dead(j)    == {i \in Inbound(j) : (Fin(st[i]) /\ j \notin nx[i]) \/ (st[i] = "none" /\ ~Reachable(i, 1))}
 Need(j)    == IF D.tasks[j].join = -1 THEN Cardinality(Inbound(j)) ELSE D.tasks[j].join
 JoinReady(j)  == Cardinality(Routed(j)) >= Need(j)
 JoinFailed(j) == Cardinality(Dead(j)) > Cardinality(Inbound(j)) - Need(j)
 
+\* the tasks with which an instance of workflow w begins (direct: no inbound transitions; reverse: the tasks of the
+\* target's closure that require nothing), and everything that starts with them (sub-workflow instances, recursively)
+FirstTasks(P, w) == IF P.type = "reverse" /\ w = P.name
+                    THEN {t \in Rng(P.closure) : P.tasks[t].requires = <<>>}
+                    ELSE {t \in Rng(P.order) : P.tasks[t].wf = w /\ Rng(P.inbound[t]) = {}}
+RECURSIVE Begun(_, _, _)
+Begun(P, ts, depth) ==      \* [tasks |-> tasks that start, wfs |-> workflow instances that start] when the tasks ts start
+  LET subs == {P.tasks[t].sub : t \in {x \in ts : P.tasks[x].kind = "workflow" /\ P.tasks[x].join = 0}}   \* (a join waits first)
+  IN IF subs = {} \/ depth > 4 THEN [tasks |-> ts, wfs |-> {}]
+     ELSE LET inner == Begun(P, UNION {FirstTasks(P, s) : s \in subs}, depth + 1)
+          IN [tasks |-> ts \cup inner.tasks, wfs |-> subs \cup inner.wfs]
+StartState(P, t) == IF P.tasks[t].join # 0 THEN "WAITING" ELSE "RUNNING"
+
 Init == /\ pid \in 1..Len(Progs)
-        /\ st = [t \in Rng(Progs[pid].prog.order) |->
-                   IF Rng(Progs[pid].prog.inbound[t]) = {} /\ Progs[pid].prog.tasks[t].wf = Progs[pid].prog.name
-                   THEN (IF Progs[pid].prog.tasks[t].join # 0 THEN "WAITING" ELSE "RUNNING") ELSE "none"]
-        /\ nx = [t \in Rng(Progs[pid].prog.order) |-> {}]
-        /\ wfs = "RUNNING"
-        /\ created = {}
+        /\ LET P == Progs[pid].prog
+               b == Begun(P, FirstTasks(P, P.name), 0)
+           IN /\ st = [t \in Rng(P.order) |-> IF t \in b.tasks THEN StartState(P, t) ELSE "none"]
+              /\ nx = [t \in Rng(P.order) |-> {}]
+              /\ wfs = [w \in {P.tasks[t].wf : t \in Rng(P.order)} |-> IF w = P.name \/ w \in b.wfs THEN "RUNNING" ELSE "none"]
 
-\* effects of a task reaching a final state
+\* tasks ts (not yet instantiated) start, together with the sub-workflow instances they call
+Starting(ts) ==
+  LET b == Begun(D, ts, 0)
+  IN [st |-> [x \in Names |-> IF x \in b.tasks /\ st[x] = "none" THEN StartState(D, x) ELSE st[x]],
+      wfs |-> [w \in WfNames |-> IF w \in b.wfs /\ wfs[w] = "none" THEN "RUNNING" ELSE wfs[w]]]
+
+\* effects of a task of a direct workflow reaching a final state
 Route(t, s) ==
-  LET u == UpToCommand(Targets(t, s))
-      live == wfs = "RUNNING"
-  IN /\ nx' = [nx EXCEPT ![t] = Rng(Targets(t, s)) \cap Names]
-     /\ st' = [x \in Names |->
-                 IF x = t THEN s
-                 ELSE IF live /\ x \in u.tasks /\ st[x] = "none" THEN (IF IsJoin(x) THEN "WAITING" ELSE "RUNNING")
-                 ELSE st[x]]
-     /\ wfs' = IF live /\ u.cmd = "fail" THEN "ERROR" ELSE IF live /\ u.cmd = "succeed" THEN "SUCCESS" ELSE wfs
-     /\ UNCHANGED <<pid, created>>
+  LET w == WfOf(t)
+      rs == IF s = "SKIPPED" THEN "SUCCESS" ELSE s       \* a skipped task continues along its on-success transitions
+      u == UpToCommand(Targets(t, rs))
+      live == wfs[w] = "RUNNING"
+      b == Starting(IF live THEN {x \in u.tasks : st[x] = "none"} ELSE {})
+  IN /\ nx' = [nx EXCEPT ![t] = Rng(Targets(t, rs)) \cap Names]
+     /\ st' = [b.st EXCEPT ![t] = s]
+     /\ wfs' = [b.wfs EXCEPT ![w] = IF live /\ u.cmd = "fail" THEN "ERROR" ELSE IF live /\ u.cmd = "succeed" THEN "SUCCESS" ELSE @]
+     /\ UNCHANGED pid
+\* ... of a reverse workflow: the tasks all of whose requirements have now succeeded start
+Satisfied(t, stt) == \A r \in Rng(D.tasks[t].requires) : stt[r] = "SUCCESS"
+Advance(t, s) ==
+  LET st1 == [st EXCEPT ![t] = s]
+      ready == IF wfs[Root] = "RUNNING" THEN {x \in Rng(D.closure) : st1[x] = "none" /\ Satisfied(x, st1)} ELSE {}
+  IN /\ st' = [x \in Names |-> IF x \in ready THEN "RUNNING" ELSE st1[x]]
+     /\ UNCHANGED <<pid, nx, wfs>>
+Done(t, s) == IF Reverse /\ WfOf(t) = Root THEN Advance(t, s) ELSE Route(t, s)
 
-Finish(t)    == st[t] = "RUNNING" /\ Route(t, D.tasks[t].eff)
-JoinStart(j) == st[j] = "WAITING" /\ wfs = "RUNNING" /\ JoinReady(j)
-                /\ st' = [st EXCEPT ![j] = "RUNNING"] /\ UNCHANGED <<pid, nx, wfs, created>>
-JoinFail(j)  == st[j] = "WAITING" /\ wfs = "RUNNING" /\ ~JoinReady(j) /\ JoinFailed(j) /\ Route(j, "ERROR")
-Busy == \E t \in Names : st[t] = "RUNNING" \/ (st[t] = "WAITING" /\ wfs = "RUNNING" /\ (JoinReady(t) \/ JoinFailed(t)))
-Complete == /\ ~Busy /\ wfs = "RUNNING"
-            /\ wfs' = IF \E t \in Names : st[t] = "ERROR" /\ ~Handled(t) THEN "ERROR" ELSE "SUCCESS"
-            /\ UNCHANGED <<pid, st, nx, created>>
-Next == (\E t \in Names : Finish(t) \/ JoinStart(t) \/ JoinFail(t)) \/ Complete
+Finish(t)    == st[t] = "RUNNING" /\ ~IsSub(t) /\ Done(t, D.tasks[t].eff)
+\* a task that calls a sub-workflow finishes as the instance it started does
+FinishSub(t) == /\ st[t] = "RUNNING" /\ IsSub(t) /\ wfs[D.tasks[t].sub] \in Final
+                /\ Done(t, IF D.tasks[t].eff = "SKIPPED" THEN "SKIPPED" ELSE wfs[D.tasks[t].sub])
+JoinStart(j) == /\ st[j] = "WAITING" /\ wfs[WfOf(j)] = "RUNNING" /\ JoinReady(j)
+                /\ LET b == Starting(IF IsSub(j) THEN FirstTasks(D, D.tasks[j].sub) ELSE {})
+                   IN /\ st' = [b.st EXCEPT ![j] = "RUNNING"]
+                      /\ wfs' = IF IsSub(j) THEN [b.wfs EXCEPT ![D.tasks[j].sub] = "RUNNING"] ELSE b.wfs
+                /\ UNCHANGED <<pid, nx>>
+JoinFail(j)  == st[j] = "WAITING" /\ wfs[WfOf(j)] = "RUNNING" /\ ~JoinReady(j) /\ JoinFailed(j) /\ Route(j, "ERROR")
+Busy(w) == \E t \in TasksOf(w) : st[t] = "RUNNING" \/ (st[t] = "WAITING" /\ wfs[w] = "RUNNING" /\ (JoinReady(t) \/ JoinFailed(t)))
+Complete(w) == /\ wfs[w] = "RUNNING" /\ ~Busy(w)
+               /\ wfs' = [wfs EXCEPT ![w] = IF \E t \in TasksOf(w) : st[t] = "ERROR" /\ (Reverse \/ ~Handled(t)) THEN "ERROR" ELSE "SUCCESS"]
+               /\ UNCHANGED <<pid, st, nx>>
+Next == (\E t \in Names : Finish(t) \/ FinishSub(t) \/ JoinStart(t) \/ JoinFail(t)) \/ (\E w \in WfNames : Complete(w))
 Spec == Init /\ [][Next]_vars /\ WF_vars(Next)
 
-Terminal == ~Busy /\ wfs \in Final
+Terminal == \A w \in WfNames : wfs[w] = "none" \/ (~Busy(w) /\ wfs[w] \in Final)
 \* a join that was triggered but can neither start nor fail stays WAITING only in a finished workflow
-Outcome == [wf |-> wfs, tasks |-> {<<t, st[t]>> : t \in {x \in Names : st[x] # "none"}}]
-ObsOutcome(f) == [wf |-> f.wf, tasks |-> {<<f.tasks[i][1], f.tasks[i][2]>> : i \in DOMAIN f.tasks}]
+Outcome == [wf |-> wfs[Root], tasks |-> {<<t, st[t]>> : t \in {x \in Names : st[x] # "none"}},
+            subs |-> {<<w, wfs[w]>> : w \in {x \in WfNames : x # Root /\ wfs[x] # "none"}}]
+ObsOutcome(f) == [wf |-> f.wf, tasks |-> {<<f.tasks[i][1], f.tasks[i][2]>> : i \in DOMAIN f.tasks},
+                  subs |-> {<<f.subs[i][1], f.subs[i][2]>> : i \in DOMAIN f.subs}]
 Report == Terminal =>
             /\ PrintT(<<"terminal", pid>>)
             /\ \A k \in DOMAIN Progs[pid].finals :
